@@ -515,10 +515,38 @@ Section DedupFacts.
     - rewrite (rep_outside d Hdl) in *. exfalso. apply Hdl. now apply dedup_ids_incl.
   Qed.
 
+  (* the original dependency constraints, read through [rep], hold in every tree that respects the
+     dependencies of the de-duplicated list *)
+  Lemma dedup_respects_modulo t :
+    dups_agree l -> plan_respects t (map strip (dedup l)) ->
+    forall s, lin t s -> forall f d, In f l -> In d (lf_deps f) -> In d (lids l) ->
+    before (Merge (rep l d)) (Prepare (rep l (lf_id f))) s.
+  Proof.
+    intros Hagree Hpr s Hlin f d Hf Hd Hdl.
+    destruct (first_with_key_some l f Hf) as [f0 [Hf0 [Hf0l Hesf]]].
+    assert (Hfirst : first_with_key l f0 = Some f0).
+    { rewrite <- Hf0. apply first_with_key_congr. now apply esf_key. }
+    assert (Hrepf : rep l (lf_id f) = lf_id f0).
+    { unfold rep. rewrite (find_id_in l f Hnd Hf). now rewrite Hf0. }
+    (* the survivor g of f0 *)
+    destruct (dedup_covers f0 Hf0l) as [g [Hg Hkg]].
+    destruct (dedup_origin g Hg) as [f1 [Hf1 [Hi [Hdeps [Hk1 Hfirst1]]]]].
+    assert (f1 = f0).
+    { assert (E : first_with_key l f1 = first_with_key l f0) by (apply first_with_key_congr; congruence).
+      rewrite Hfirst1, Hfirst in E. congruence. }
+    subst f1.
+    destruct (Hagree f0 f Hf0l Hf Hesf d Hd Hdl) as [d' [Hd' Hrep]].
+    rewrite Hrepf, <- Hi, <- Hrep.
+    apply (Hpr s Hlin (strip g) (rep l d')).
+    + now apply in_map.
+    + simpl. rewrite Hdeps. now apply in_map.
+    + rewrite ids_strip, Hrep. now apply rep_in_dedup.
+  Qed.
+
   Theorem dedup_transparent_proof :
     dup_rank_compatible l ->
     NoDup (lids (dedup l)) /\ acyclic (map strip (dedup l)) /\ keys_distinct (dedup l) /\ same_requests l (dedup l) /\
-    forall sched multi trigger t, organize sched multi trigger (map strip (dedup l)) = Done t ->
+    forall sched trigger t, organize sched false trigger (map strip (dedup l)) = Done t ->
       plan_respects t (map strip (dedup l)) /\ exactly_once t (map strip (dedup l)) /\
       (dups_agree l -> forall s, lin t s -> forall f d, In f l -> In d (lf_deps f) -> In d (lids l) ->
          before (Merge (rep l d)) (Prepare (rep l (lf_id f))) s).
@@ -527,28 +555,10 @@ Section DedupFacts.
     pose proof dedup_ids_nodup as Hnd'. pose proof (dedup_acyclic Hrank) as Hac.
     split; [exact Hnd' |]. split; [exact Hac |]. split; [apply dedup_keys_distinct |].
     split; [apply dedup_same_requests |].
-    intros sched multi trigger t Ht.
+    intros sched trigger t Ht.
     assert (Hu : unique_ids (map strip (dedup l))) by (unfold unique_ids; now rewrite ids_strip).
-    destruct (C08.ProofsOrganize.organize_respects_deps_proof sched multi trigger _ t Hac Hu Ht) as [Hpr Heo].
+    destruct (C08.ProofsOrganize.organize_respects_deps_proof sched trigger _ t Hac Hu Ht) as [_ [Hpr Heo]].
     split; [exact Hpr |]. split; [exact Heo |].
-    { intros Hagree s Hlin f d Hf Hd Hdl.
-      destruct (first_with_key_some l f Hf) as [f0 [Hf0 [Hf0l Hesf]]].
-      assert (Hfirst : first_with_key l f0 = Some f0).
-      { rewrite <- Hf0. apply first_with_key_congr. now apply esf_key. }
-      assert (Hrepf : rep l (lf_id f) = lf_id f0).
-      { unfold rep. rewrite (find_id_in l f Hnd Hf). now rewrite Hf0. }
-      (* the survivor g of f0 *)
-      destruct (dedup_covers f0 Hf0l) as [g [Hg Hkg]].
-      destruct (dedup_origin g Hg) as [f1 [Hf1 [Hi [Hdeps [Hk1 Hfirst1]]]]].
-      assert (f1 = f0).
-      { assert (E : first_with_key l f1 = first_with_key l f0) by (apply first_with_key_congr; congruence).
-        rewrite Hfirst1, Hfirst in E. congruence. }
-      subst f1.
-      destruct (Hagree f0 f Hf0l Hf Hesf d Hd Hdl) as [d' [Hd' Hrep]].
-      rewrite Hrepf, <- Hi, <- Hrep.
-      apply (Hpr s Hlin (strip g) (rep l d')).
-      + now apply in_map.
-      + simpl. rewrite Hdeps. now apply in_map.
-      + rewrite ids_strip, Hrep. now apply rep_in_dedup. }
+    intros Hagree. now apply dedup_respects_modulo.
   Qed.
 End DedupFacts.
